@@ -8,6 +8,8 @@
 #include "procs.h"
 #include "simrun.h"
 
+#include <dsplib/gccphat.h>
+
 namespace vf {
 namespace {
 
@@ -121,6 +123,21 @@ bool op_valid(const Op& op, size_t nshared) {
     if (k == "shared") {
         return op.a.size() >= 2 && op.iarg(0) >= 0 && size_t(op.iarg(0)) < nshared;
     }
+    if (k == "stft") {
+        return op.a.size() >= 3 && sz(0, 6000) && op.iarg(1) >= 2 && op.iarg(1) <= 10;
+    }
+    if (k == "hilbert" || k == "thd") {
+        return op.a.size() >= 2 && op.iarg(0) >= 16 && sz(0, 8000);
+    }
+    if (k == "czt") {
+        return op.a.size() >= 3 && sz(0, 600) && sz(1, 600);
+    }
+    if (k == "gccphat" || k == "finddelay" || k == "mscohere") {
+        return op.a.size() >= 2 && op.iarg(0) >= 64 && sz(0, 3000);
+    }
+    if (k == "medfilt") {
+        return op.a.size() >= 3 && sz(0, 3000) && op.iarg(1) >= 3 && op.iarg(1) <= 33;
+    }
     return false;
 }
 
@@ -199,6 +216,41 @@ std::vector<double> do_op(const Op& op, const std::vector<Shared>& sh) {
         for (int i = 0; i < v.size(); ++i) {
             out.push_back(v[i]);
         }
+    } else if (k == "stft") {
+        const int nfft = 1 << int(op.iarg(1));
+        const auto fr = dsplib::stft(rdata(uint32_t(op.iarg(2)), n), nfft);
+        for (const auto& f : fr) {
+            append(out, f);
+        }
+        if (!fr.empty()) {
+            append(out, dsplib::istft(fr, nfft));
+        }
+    } else if (k == "hilbert") {
+        append(out, dsplib::hilbert(rdata(uint32_t(op.iarg(1)), n)));
+    } else if (k == "thd") {
+        arr_real x = rdata(uint32_t(op.iarg(1)), n) * 0.01;
+        for (int i = 0; i < n; ++i) {
+            x[i] += std::sin(0.7 * i) + 0.1 * std::sin(1.4 * i);
+        }
+        const auto r = dsplib::thd(x, 3);
+        out.push_back(r.value);
+        append(out, r.harmfreq);
+        out.push_back(dsplib::sinad(x));
+    } else if (k == "czt") {
+        append(out, dsplib::czt(cdata(uint32_t(op.iarg(2)), n), int(op.iarg(1)), dsplib::expj(-2 * dsplib::pi / double(op.iarg(1)))));
+    } else if (k == "gccphat") {
+        const arr_real x = rdata(uint32_t(op.iarg(1)), n);
+        const auto r = dsplib::gccphat(dsplib::delayseq(x, 5), x, 8000);
+        out.push_back(r.tau);
+        append(out, r.corr);
+    } else if (k == "finddelay") {
+        const arr_real x = rdata(uint32_t(op.iarg(1)), n);
+        out.push_back(dsplib::finddelay(x, dsplib::delayseq(x, 7)));
+    } else if (k == "mscohere") {
+        append(out, dsplib::mscohere(rdata(uint32_t(op.iarg(1)), n), rdata(uint32_t(op.iarg(1)) + 3, n), 32));
+    } else if (k == "medfilt") {
+        arr_real x = rdata(uint32_t(op.iarg(2)), n);
+        append(out, dsplib::medfilt(x, int(op.iarg(1))));
     } else if (k == "shared") {
         const Shared& s = sh[size_t(op.iarg(0))];
         const uint32_t ds = uint32_t(op.iarg(1));
@@ -274,7 +326,7 @@ Plan gen_common(uint64_t seed, const std::string& tier, bool first_use) {
             Op op;
             op.thr = t;
             const double ds = double(r.seed32());
-            int c = int(r.below(22));
+            int c = int(r.below(30));
             if (first_use && i == 0) {
                 c = 12;
             }
@@ -323,6 +375,30 @@ Plan gen_common(uint64_t seed, const std::string& tier, bool first_use) {
             } else if (c == 19) {
                 op.kind = "primes";
                 op.a = {double(r.logi(2, 20000))};
+            } else if (c == 21) {
+                op.kind = "stft";
+                op.a = {double(r.logi(64, 3000)), double(r.range(3, 8)), ds};
+            } else if (c == 22) {
+                op.kind = "hilbert";
+                op.a = {double(pick_len(r) + 16), ds};
+            } else if (c == 23) {
+                op.kind = "thd";
+                op.a = {double(r.logi(256, 4000)), ds};
+            } else if (c == 24) {
+                op.kind = "czt";
+                op.a = {double(r.logi(2, 300)), double(r.logi(1, 300)), ds};
+            } else if (c == 25) {
+                op.kind = "gccphat";
+                op.a = {double(r.logi(64, 1500)), ds};
+            } else if (c == 26) {
+                op.kind = "finddelay";
+                op.a = {double(r.logi(64, 1500)), ds};
+            } else if (c == 27) {
+                op.kind = "mscohere";
+                op.a = {double(r.logi(128, 2000)), ds};
+            } else if (c == 28) {
+                op.kind = "medfilt";
+                op.a = {double(r.logi(8, 1500)), double(r.range(3, 33)), ds};
             } else {
                 op.kind = "factor";
                 op.a = {double(r.logi(1, 2000000000))};
